@@ -379,8 +379,9 @@ func scenario(p params, bounds map[string]int) *mc.Scenario {
 
 			hardMax := p.maxStart + w.limit() + 2 + maxLate
 
-			// 1. Time passes: only at full quiescence, only while no
-			// due timer / deadline is undelivered.
+			// 1. Time passes: only at full quiescence. "tick": no due
+			// timer / deadline is awaiting delivery (for ticks taken while
+			// an expiry is in flight see "tick-late" below).
 			x.AddEvent(&mc.Event{
 				Name: "tick", OnlyIdle: true,
 				Enabled: func() bool {
